@@ -34,5 +34,5 @@ package keystore
 //@   modifies nothing
 //@   ensures true-only-for-equal-contents: result ==> len(a) == len(b) && (forall j int :: 0 <= j && j < len(a) ==> a[j] == b[j])
 //@   assert-at return#1 false-for-different-lengths: len(a) != len(b)
-//@   assert-at return#2 false-at-a-differing-byte: 0 <= #rangeindex + 1 && #rangeindex + 1 < len(a) && a[#rangeindex + 1] != b[#rangeindex + 1]
-//@   loop * invariant prefix-equal: -1 <= #rangeindex && #rangeindex < len(a) && len(a) == len(b) && (forall j int :: 0 <= j && j <= #rangeindex ==> a[j] == b[j])
+//@   assert-at return#2 false-at-a-differing-byte: 0 <= #iter && #iter < len(a) && a[#iter] != b[#iter]
+//@   loop * invariant prefix-equal: 0 <= #iter && #iter <= len(a) && len(a) == len(b) && (forall j int :: 0 <= j && j < #iter ==> a[j] == b[j])
